@@ -276,7 +276,10 @@ def r2_order(ctx):
     asis = [r for r in astx.walk_own(f.node) if isinstance(r, ast.Return) and isinstance(r.value, ast.List) and len(r.value.elts) == 1 and astx.is_name(r.value.elts[0], f.params[0])]
     want = literals(Normalizer(None, inline=False, int_atoms=lambda a: True).conj([(ast.parse(f"all(len(s) == 1 for s in {f.params[0]}.ranking)", mode="eval").body, True)]))
     got = [literals(Nx.conj(astx.path_condition(f.node, r, pmx, carried=False))) for r in asis]
-    ctx.check_shape(len(asis) == 1 and got[0] == want, f, asis[0] if asis else f.node, "expand_tied_ballot returns an untied ballot unchanged, and only an untied one", str(got[:1]),
+    # (a position is never empty, so "no position has more than one member" says the same)
+    alts = [want] + [literals(Normalizer(None, inline=False, int_atoms=lambda a: True).conj([(ast.parse(t.format(b=f.params[0]), mode="eval").body, True)]))
+                     for t in ("not any(len(s) > 1 for s in {b}.ranking)", "not any(len(s) != 1 for s in {b}.ranking)", "all(len(s) <= 1 for s in {b}.ranking)")]
+    ctx.check_shape(len(asis) == 1 and got[0] in alts, f, asis[0] if asis else f.node, "expand_tied_ballot returns an untied ballot unchanged, and only an untied one", str(got[:1]),
                     f"the ballot is returned as it is under {got[:1]}; documented: when every position is a singleton")
     # add_missing: missing candidates appended as ONE last group, only when there are any
     f = prog.find_func("add_missing_cands")
@@ -682,6 +685,7 @@ FAULTS += [
     ("dedup compares with last kept only", [(CL, "            if cand in ranking and cand not in dedup_ranking:", "            if cand in ranking and cand not in dedup_ranking[-1:]:")], "C12.R1"),
 ]
 BENIGN = [
+    ("expand shortcut written with any", [(UT, "    if all(len(s) == 1 for s in ballot.ranking):\n        return [ballot]", "    if not any(len(s) > 1 for s in ballot.ranking):\n        return [ballot]")]),
     ("untouched ranked ballots skipped", [(UT, _RC_REGION, _RC_SKIP % "ballot.ranking and not ballot.scores and all(c not in removed for s in ballot.ranking for c in s)")]),
     ("comprehension instead of loop", [(UT, "                for c in s:\n                    if c not in removed:\n                        new_s.append(c)\n", "                new_s = [c for c in s if not (c in removed)]\n")]),
     ("weight via Fraction()", [(UT, "                ranking=tuple(new_ranking), weight=ballot.weight\n            )", "                ranking=tuple(new_ranking), weight=Fraction(ballot.weight)\n            )")]),
